@@ -338,7 +338,7 @@ def lock_discipline(ctx, repo, cname, attrs):
     """Every access to a counter attribute outside __init__ is lexically inside
     `with self.<lock>` where <lock> is assigned threading.Lock() in __init__."""
     c = repo.cls(cname)
-    init = c.methods.get("__init__")
+    init = repo.all_methods(c).get("__init__")
     locks = set()
     for n in ast.walk(init.node):
         if isinstance(n, ast.Assign) and isinstance(n.value, ast.Call):
